@@ -63,7 +63,7 @@ func (rn *runner) checkRecoverable() (*simcore.Violation, []*state) {
 		return ka > kb
 	})
 	if len(rec) > 0 {
-		rn.res.Probe("recoverable-roots")
+		rn.probe("recoverable-roots")
 	}
 	return nil, rec
 }
@@ -109,7 +109,7 @@ func (rn *runner) recoverOne(st *state) *simcore.Violation {
 		if rn.w.rec != nil && rn.w.rec.Len() != evLen {
 			return simcore.Violf("refused-recover-mutates", "refused Recover(state #%d) performed %d file mutations", st.idx, rn.w.rec.Len()-evLen)
 		}
-		rn.res.Probe("recover-refused")
+		rn.probe("recover-refused")
 		return rn.checkTree("after refused Recover")
 	}
 	before := rn.w.db.VerifDisk()
@@ -130,14 +130,14 @@ func (rn *runner) recoverOne(st *state) *simcore.Violation {
 	if err != nil {
 		return simcore.Violf("recover-failed", "Recover(state #%d root %x, id %d; disk layer was id %d, tail %d) failed although Recoverable reported true: %v", st.idx, st.root[:4], k, diskID, tail, err)
 	}
-	rn.res.Probe("recover-done")
+	rn.probe("recover-done")
 	if before.BufferLayers > 0 {
-		rn.res.Probe("recover-inside-buffer")
+		rn.probe("recover-inside-buffer")
 		if uint64(diskID-k) > before.BufferLayers {
-			rn.res.Probe("recover-across-buffer-boundary")
+			rn.probe("recover-across-buffer-boundary")
 		}
 	} else {
-		rn.res.Probe("recover-on-disk")
+		rn.probe("recover-on-disk")
 	}
 	if v := rn.checkTree("after Recover"); v != nil {
 		return v
@@ -207,6 +207,7 @@ func (rn *runner) endPhase(end string) *simcore.Violation {
 		rn.m.epoch++
 		t0 := rn.beginMut(pre)
 		tipIdx := rn.m.states[tip].idx
+		tipOrphan := rn.m.layers[tip].orphan
 		rn.mu.Unlock()
 		var err error
 		v := guard("journal", func() { err = rn.w.db.Journal(tip) })
@@ -214,6 +215,9 @@ func (rn *runner) endPhase(end string) *simcore.Violation {
 			return v
 		}
 		if err != nil {
+			if tipOrphan {
+				return rn.finding("journal", "Journal(state #%d) failed: %v (the journaled head hangs off a fork child of a flattened layer whose parent pointer leads to the stale disk layer)", tipIdx, err)
+			}
 			return simcore.Violf("journal-failed", "Journal(state #%d) failed: %v", tipIdx, err)
 		}
 		if v := guard("close", func() { err = rn.w.closeDB() }); v != nil {
@@ -229,9 +233,9 @@ func (rn *runner) endPhase(end string) *simcore.Violation {
 		rn.endMut(t0)
 		rn.logf("M", "journal+reopen at #%d layers=%d", tipIdx, len(keep))
 		rn.mu.Unlock()
-		rn.res.Probe("journal-reopen")
+		rn.probe("journal-reopen")
 		if len(keep) > 1 {
-			rn.res.Probe("journal-reopen-with-diff-layers")
+			rn.probe("journal-reopen-with-diff-layers")
 		}
 		if v := rn.checkTree("after Journal + reopen"); v != nil {
 			return v
